@@ -100,7 +100,9 @@ fn drive(w: &mut World, replay: Option<&[Step]>) -> VResult<()> {
     // bound: what is outstanding now, plus for every party (an invited one joins first and then has to follow every
     // later commit) the whole log, a final write and the final round of the heal planner
     let longest = w.groups.iter().map(|g| g.log.len()).max().unwrap_or(0) as u32;
-    let budget = 2 * (outstanding(w) as u32) + (w.parties.len() as u32) * (longest + 8) * (w.groups.len().max(1) as u32) + 40;
+    // (an observer may still have to be fed every handshake message that exists)
+    let observers = (w.ext.observers.len() * (w.msgs.len() + 8)) as u32;
+    let budget = 2 * (outstanding(w) as u32) + (w.parties.len() as u32) * (longest + 8) * (w.groups.len().max(1) as u32) + observers + 40;
     let mut used = 0u32;
     n += 1000;
     while let Some(a) = Gen::heal(w, &mut stage) {
